@@ -781,7 +781,17 @@ class Engine:
                 st["after"] = _after
                 hook(inv, device, k, c)
             world.cmd_hook = hook_with_len
-            rc, deployer, out = self.deploy(world, no_check_diff=True, filter_acl=filter_path)
+            captured = {}
+            real_dp = self.api._diff_and_patch
+
+            def spy(device, old, new, acl_rules, filter_acl_rules, *a, **kw):
+                captured[device.id] = (device, acl_rules, filter_acl_rules, kw.get("rb"))
+                return real_dp(device, old, new, acl_rules, filter_acl_rules, *a, **kw)
+            self.api._diff_and_patch = spy
+            try:
+                rc, deployer, out = self.deploy(world, no_check_diff=True, filter_acl=filter_path)
+            finally:
+                self.api._diff_and_patch = real_dp
             world.cmd_hook = None
             steps_log.append({"step": step, "rc": rc, "commands": sum(len(v) for v in world.received.values()),
                               "fetch_faults": {k: v.get("fail") or "stall" for k, v in world.fetch_plan.items()},
@@ -806,6 +816,30 @@ class Engine:
                 bad = [a for a in dv.anomalies if a[1] in ("nesting-mismatch", "command-outside-config-mode")]
                 if bad:
                     return V("device-rejected-command", bad[0][1], step=step, device=d.hostname, command=bad[0][3])
+            # (a) for arbitrary old and new: diff_and_patch itself, given the device's whole configuration and a desired
+            # configuration that has lines outside the ACL (nothing narrowed beforehand), with the ACL annet compiled
+            for d in world.inv:
+                if d.id not in captured or ch.draw(2, "direct-dp") == 0:
+                    continue
+                device, acl_rules, filter_rules, rbk = captured[d.id]
+                if acl_rules is None:
+                    continue
+                from annet import tabparser
+                fmt = world.vendor.make_formatter(indent="  ")
+                old_full = tabparser.parse_to_tree(text=fmt.join(pre[d.id]), splitter=fmt.split)
+                new_full = tabparser.parse_to_tree(text=fmt.join(world.desired[d.id]), splitter=fmt.split)
+                try:
+                    _diff, pt = self.api._diff_and_patch(device, old_full, new_full, acl_rules, filter_rules, False, rb=rbk)
+                except Exception as e:  # pylint: disable=broad-except
+                    raise AnnetCrashed(e)
+                world.probe("diff_and_patch_given_unnarrowed_configs")
+                for path in world.vendor.make_formatter(indent="").cmd_paths(pt):
+                    if rb.exit and path[-1] == rb.exit and len(path) > 1:
+                        continue
+                    cov = self._holders(world, tuple(path))[0]
+                    if not cov:
+                        return V("command-outside-acl", "unnarrowed-input", step=step, device=d.hostname, path=list(path),
+                                 device_before=_plain(pre[d.id]), desired=_plain(world.desired[d.id]))
         return None
 
     # ------------------------------------------------------------------ C09
